@@ -845,6 +845,9 @@ func (g *Gen) bitop(st *State, x *ssa.BinOp, a, b Val) Val {
 	case token.AND:
 		g.assume(st, fmt.Sprintf("(=> %s (and (>= %s 0) (<= %s %s) (<= %s %s)))", nonneg, r.T, r.T, a.T, r.T, b.T))
 	case token.OR, token.XOR:
+		if x.Op == token.XOR { // x ^ 0 == x, x ^ -1 == ^x == -x-1 (branch-free abs idiom)
+			g.assume(st, fmt.Sprintf("(and (=> (= %s 0) (= %s %s)) (=> (= %s 0) (= %s %s)) (=> (= %s (- 1)) (= %s (- (- %s) 1))) (=> (= %s (- 1)) (= %s (- (- %s) 1))))", b.T, r.T, a.T, a.T, r.T, b.T, b.T, r.T, a.T, a.T, r.T, b.T))
+		}
 		lower := "0"
 		if x.Op == token.OR {
 			lower = fmt.Sprintf("(ite (>= %s %s) %s %s)", a.T, b.T, a.T, b.T)
